@@ -173,6 +173,10 @@ WITNESSES = [
      "input": "fun boom() { throw(\"x\") }\n\ntest first_errors_in_a_callee { let leftover = 1  if True { boom() } }\n\ntest second_sees_nothing_of_the_first { let leftover = 2  assert(leftover == 2) }\n\ntest third { assert(1 == 1) }\n",
      "expect": {"py": "('2 passed and 1 failed' not in out and 'a failing test changed the verdict of a later test: ' + out[-300:]) or ''"},
      "note": "a test that fails deep in a call leaves nothing on the evaluator stack for the next test"},
+    {"match": r"testrun\.", "kind": "test", "props": ["C26"], "filename": "t.gdn",
+     "input": "fun scale(n: Int): Int { check_positive(n) * 2 }\nfun check_positive(n: Int): Int { assert(n > 0)  n }\n\ntest scaling_rejects_zero {\n  let v = scale(0)\n  assert(v == 0)\n}\n\ntest addition_works {\n  let s = 4 + 6\n  assert(s == 10)\n}\n\ntest third { assert(True) }\n",
+     "expect": {"py": "('2 passed and 1 failed' not in out and 'a test that fails two calls below its body changed the verdict of a later test: ' + out[-300:]) or ''"},
+     "note": "a failure two calls deep (test -> scale -> check_positive) must not leave the failing test's frame behind"},
     {"match": r"testrun\.select_tests\.", "kind": "test-dir", "props": ["C26"], "input": "",
      "files": {"a_test.gdn": "test smoke { assert(1 == 1) }\n\ntest only_in_a { assert(2 == 2) }\n",
                "b_test.gdn": "test smoke { assert(1 == 2) }\n\ntest only_in_b { assert(3 == 3) }\n"},
